@@ -695,6 +695,7 @@ static void gen_field(Gen& g, const std::string& tier, const std::string& profil
             // values of a polynomial of low degree (the top of the column must vanish) or arbitrary values
             for (long i = 0; i < n; ++i) fs.push_back(g.isQ ? g.scalar((int)g.rng.below(4)) : g.scalar());
             g.emit("interp", {Gen::tok(xs), Gen::tok(fs)});
+            g.emit("crt", {Gen::tok(xs), Gen::tok(fs)});
             std::vector<std::string> cst(n, g.nz());
             g.emit("interp", {Gen::tok(xs), Gen::tok(cst)});
         }
